@@ -8,8 +8,12 @@ variable {E : Type}
 /-- with `EngineReset`, what `loadDb` produces depends on the instance only through id, switches, names and the per-call members -/
 theorem loadDb_eq (eng : Engine E) (hE : EngineReset eng) (w : W E) (db : String) :
     loadDb eng w db =
-      ({ id := w.id, sw := w.sw, names := w.names, pc := w.pc, engine := (eng.readDb eng.fresh db).1,
-         c := { dbLoaded := ((eng.readDb eng.fresh db).2 == 0) } }, (eng.readDb eng.fresh db).2) := by
+      ({ id := w.id, sw := w.sw, names := w.names,
+         pc := { w.pc with errorLines := (eng.readDbText eng.fresh db).1, warningLines := (eng.readDbText eng.fresh db).2 },
+         engine := (eng.readDb eng.fresh db).1,
+         c := { dbLoaded := ((eng.readDb eng.fresh db).2 == 0), errReporter := (eng.readDbText eng.fresh db).1,
+                warnReporter := (eng.readDbText eng.fresh db).2, errorString := (eng.readDbText eng.fresh db).1,
+                warningString := (eng.readDbText eng.fresh db).2 } }, (eng.readDb eng.fresh db).2) := by
   simp [loadDb, unloadDatabase, hE w.engine]
 
 /-- a run on a loaded instance does not look at the per-call members -/
@@ -25,6 +29,7 @@ theorem runOps_append (eng : Engine E) (w : W E) (a b : List Op) : runOps eng w 
 /-- an equivalence-like relation on engine states that no operation can tell apart -/
 structure Respects (eng : Engine E) (R : E → E → Prop) : Prop where
   readDb : ∀ e1 e2 db, R e1 e2 → R (eng.readDb e1 db).1 (eng.readDb e2 db).1 ∧ (eng.readDb e1 db).2 = (eng.readDb e2 db).2
+  readDbText : ∀ e1 e2 db, R e1 e2 → eng.readDbText e1 db = eng.readDbText e2 db
   run : ∀ e1 e2 env s, R e1 e2 → R (eng.run e1 env s).1 (eng.run e2 env s).1 ∧ (eng.run e1 env s).2 = (eng.run e2 env s).2
   unload : ∀ e1 e2, R e1 e2 → R (eng.unload e1) (eng.unload e2)
   testInput : ∀ e1 e2, R e1 e2 → eng.testInput e1 = eng.testInput e2
@@ -94,8 +99,9 @@ theorem loadDb_rel (eng : Engine E) (R : E → E → Prop) (hR : Respects eng R)
     (h : Rel R w1 w2) : Rel R (loadDb eng w1 db).1 (loadDb eng w2 db).1 ∧ (loadDb eng w1 db).2 = (loadDb eng w2 db).2 := by
   obtain ⟨hid, hsw, hn, hc, hpc, he⟩ := h
   have hd := hR.readDb _ _ db (hR.unload _ _ he)
+  have ht := hR.readDbText _ _ db (hR.unload _ _ he)
   simp only [loadDb, unloadDatabase]
-  exact ⟨⟨hid, hsw, hn, by simp [hd.2], hpc, hd.1⟩, hd.2⟩
+  exact ⟨⟨hid, hsw, hn, by simp [hd.2, ht], by simp [hpc, ht], hd.1⟩, hd.2⟩
 
 theorem loadTail_rel (eng : Engine E) (R : E → E → Prop) (hR : Respects eng R) (r1 r2 : W E × Nat)
     (h : Rel R r1.1 r2.1) (hn : r1.2 = r2.2) :
@@ -184,11 +190,12 @@ theorem load_rel_fresh (eng : Engine E) (R : E → E → Prop) (hEq : Equivalenc
   -- engines after unload are related
   have hu : R (eng.unload w.engine) (eng.unload eng.fresh) := hEq.trans (hU _) (hEq.symm (hU _))
   have hd := hR.readDb _ _ db hu
+  have ht := hR.readDbText _ _ db hu
   -- after load_db the two instances differ at most in the per-call members
   have hA : Rel R { (loadDb eng (holdOff w) db).1 with pc := (loadDb eng (holdOff (freshWith eng (survivors w))) db).1.pc }
                   (loadDb eng (holdOff (freshWith eng (survivors w))) db).1 := by
     simp only [loadDb, unloadDatabase, holdOff, freshWith, create, survivors]
-    exact ⟨rfl, rfl, rfl, by simp [hd.2], rfl, hd.1⟩
+    exact ⟨rfl, rfl, rfl, by simp [hd.2, ht], rfl, hd.1⟩
   have hN : (loadDb eng (holdOff w) db).2 = (loadDb eng (holdOff (freshWith eng (survivors w))) db).2 := by
     simp only [loadDb, unloadDatabase, holdOff, freshWith, create, survivors]; exact hd.2
   have hz : (loadDb eng (holdOff w) db).2 = 0 := by
